@@ -35,6 +35,8 @@ fn main() {
         ("wire", "deep") => s_wire::deep(seed),
         ("signer", "replay") => s_signer::replay(&inp, &tier),
         ("signer", "record") => s_signer::record(seed, &tier, &out),
+        ("envelope", "replay") => s_envelope::replay(&inp, &tier),
+        ("envelope", "record") => s_envelope::record(seed, &tier, &out),
         ("selfcheck", _) => println!("{{\"rec\":\"ok\"}}"),
         (s, m) => {
             eprintln!("unknown suite/mode {} {}", s, m);
